@@ -8,9 +8,10 @@ import (
 
 func TestMain(m *testing.M) { ev.Main(m) }
 
-func TestStall(t *testing.T)     { stallProp.Test(t) }
-func TestAllK(t *testing.T)      { enumerateK(t) }
-func TestCallbacks(t *testing.T) { cbProp.Test(t) }
+func TestStall(t *testing.T)         { stallProp.Test(t) }
+func TestAllK(t *testing.T)          { enumerateK(t) }
+func TestCallbacks(t *testing.T)     { cbProp.Test(t) }
+func TestCallbacksLoss(t *testing.T) { cbLossProp.Test(t) }
 
 func TestForced(t *testing.T)     { forcedProp.Test(t) }
 func TestLoss(t *testing.T)       { lossProp.Test(t) }
